@@ -18,7 +18,7 @@ import scenario as S
 from translate import pyfuns
 
 TIES = {
-    "C04": {"props": "PysamlModel.Props.PyTieC04", "audit": "PysamlModel/Audit/PyTieC04.lean", "functions": ["for_me"]},
+    "C04": {"props": "PysamlModel.Props.PyTieC04", "audit": "PysamlModel/Audit/PyTieC04.lean", "functions": ["for_me", "_verify"]},
     "C05": {"props": "PysamlModel.Props.PyTieC05", "audit": "PysamlModel/Audit/PyTieC05.lean",
             "functions": ["validate_on_or_after", "validate_before", "authn_statement_ok"]},
 }
@@ -57,6 +57,16 @@ def cases(pid, rng, tier):
             for _ in range(n // 4):
                 out.append({"fn": fn, "t": "x", "tm": S.NOW0 + rng.randint(-400, 400), "now": S.NOW0 + rng.randint(-5, 5),
                             "skew": rng.choice([0, 1, 59, 60, 61, 180, 300])})
+    if "_verify" in TIES[pid]["functions"]:
+        own = "https://sp.example/acs/post"
+        dests = [None, "", own, own + "/", "https://evil.example/acs", own.upper(), " " + own]
+        lists = [[], [own], [own, "https://sp.example/acs/redirect"], ["https://sp.example/acs/redirect"]]
+        for asy in (True, False):
+            for d in dests:
+                for addrs in lists:
+                    for ii in (True, False):
+                        for ok in (True, False):
+                            out.append({"fn": "_verify", "asynchop": asy, "dest": d, "addrs": addrs, "ii": ii, "st_ok": ok})
     if "authn_statement_ok" in TIES[pid]["functions"]:
         offs = [None, "", -86400, -61, -60, -59, -1, 0, 1, 60, 86400, -S.NOW0]   # -NOW0: the instant 0 (falsy nooa)
         for skew in (0, 60):
@@ -98,6 +108,25 @@ def run_real(case):
             conds = saml.Conditions(audience_restriction=[
                 saml.AudienceRestriction(audience=[saml.Audience(text=t) for t in r]) for r in case["rs"]])
             v = for_me(conds, case["me"])
+        elif fn == "_verify":
+            from saml2 import samlp
+            from saml2.response import StatusError, StatusResponse
+
+            sr = StatusResponse.__new__(StatusResponse)   # the method reads these attributes of self and calls two methods
+            sr.request_id = None
+            sr.in_response_to = None
+            sr.response = samlp.Response(version="2.0", destination=case["dest"])
+            sr.asynchop = case["asynchop"]
+            sr.return_addrs = list(case["addrs"])
+            sr.issue_instant_ok = lambda: case["ii"]
+
+            def status_ok():
+                if not case["st_ok"]:
+                    raise StatusError("not success")
+                return True
+
+            sr.status_ok = status_ok
+            v = sr._verify()
         elif fn == "authn_statement_ok":
             from saml2 import saml
             from saml2.response import AuthnResponse
